@@ -7,6 +7,14 @@ def showCtx : Option SpanCtx → String
   | none => "none"
   | some sc => s!"tid={hexArg sc.traceId} sid={hexArg sc.spanId} fl={hexArg [sc.flags]} remote={bool01 sc.remote} ts={showEntries sc.traceState}"
 
+/-- the members of a canonical `k=v,k=v` list, split at `,` and at the first `=` (no trimming, no validation):
+    how the harness feeds `Set` for the `injects` / `roundtrips` cases -/
+def naiveMembers (ts : Bytes) : Option (List (Bytes × Bytes)) :=
+  if ts.isEmpty then some [] else
+  (ts.splitOn 44).mapM fun m => match m.span (· != 61) with
+    | (k, _ :: v) => some (k, v)
+    | (_, []) => none
+
 /-- `tc inject <tid> <sid> <flags> <tracestate header>` / `tc extract <traceparent> <tracestate>` -/
 def handleTc : List String → String
   | ["inject", tid, sid, fl, ts] =>
@@ -29,6 +37,65 @@ def handleTc : List String → String
     match ofHexStr tp, ofHexStr ts with
     | some tp, some ts => showCtx (extract tp ts)
     | _, _ => "bad-op"
+  -- the caller's context already holds a span: the same observation as `extract`
+  | ["extractp", tp, ts] =>
+    match ofHexStr tp, ofHexStr ts with
+    | some tp, some ts => showCtx (extract tp ts)
+    | _, _ => "bad-op"
+  -- the trace state built with `Set`, member by member (the header argument is split naively, as the harness does)
+  | ["injects", tid, sid, fl, ts] =>
+    match ofHexStr tid, ofHexStr sid, ofHexStr fl, ofHexStr ts with
+    | some tid, some sid, some [f], some ts =>
+      if tid.length ≠ 16 ∨ sid.length ≠ 8 then "bad-op" else
+      match naiveMembers ts with
+      | none => "bad-op"
+      | some ms =>
+        match inject { traceId := tid, spanId := sid, flags := f, remote := false, traceState := stateBySet ms } with
+        | none => "none"
+        | some (tp, tso) => s!"tp={hexArg tp} ts={match tso with | none => "unset" | some t => hexArg t}"
+    | _, _, _, _ => "bad-op"
+  | ["roundtrips", tid, sid, fl, ts] =>
+    match ofHexStr tid, ofHexStr sid, ofHexStr fl, ofHexStr ts with
+    | some tid, some sid, some [f], some ts =>
+      if tid.length ≠ 16 ∨ sid.length ≠ 8 then "bad-op" else
+      match naiveMembers ts with
+      | none => "bad-op"
+      | some ms =>
+        match inject { traceId := tid, spanId := sid, flags := f, remote := false, traceState := stateBySet ms } with
+        | none => "none"
+        | some (tp, tso) => showCtx (extract tp (tso.getD []))
+    | _, _, _, _ => "bad-op"
+  -- a context without any span: the invalid default span context
+  | ["inject0"] =>
+    match inject { traceId := List.replicate 16 0, spanId := List.replicate 8 0, flags := 0, remote := false, traceState := [] } with
+    | none => "none"
+    | some _ => "wrote"
+  | ["fields", n] =>
+    match n.toNat? with
+    | some n => let (seen, r) := fields n; s!"f=[{",".intercalate (seen.map hexArg)}] r={bool01 r}"
+    | none => "bad-op"
+  | ["idhex", which, h] =>
+    match ofHexStr h with
+    | some h =>
+      if which = "t" then "id=" ++ hexArg (idFromHex (Gen.kTraceIdSize / 2) h)
+      else if which = "s" then "id=" ++ hexArg (idFromHex (Gen.kSpanIdSize / 2) h)
+      else if which = "f" then "id=" ++ hexArg (idFromHex 1 h)
+      else "bad-op"
+    | none => "bad-op"
+  | ["hex2bin", n, h] =>
+    match n.toNat?, ofHexStr h with
+    | some n, some h => if n > 64 then "bad-op" else
+      let (r, buf) := hexToBinary h n; s!"r={bool01 r} buf={hexArg buf}"
+    | _, _ => "bad-op"
+  | ["ishex", h] =>
+    match ofHexStr h with
+    | some h => bool01 (isValidHex h)
+    | none => "bad-op"
+  | ["split", sep, n, h] =>
+    match ofHexStr sep, n.toNat?, ofHexStr h with
+    | some [sep], some n, some h => if n > 64 then "bad-op" else
+      let toks := splitString sep n h; s!"n={toks.length} [{",".intercalate (toks.map hexArg)}]"
+    | _, _, _ => "bad-op"
   | _ => "bad-op"
 
 def C09.handlers : List (String × (List String → String)) := [("tc", handleTc)]
